@@ -14,7 +14,8 @@ thread whose operations all come after the end of another one normally receives 
                 provider is called exactly when a `get` finds no value;
   * model     — `TLocal.runT` over the translated methods (Extracted/ThreadLocal.lean), one machine per instance.
 Values are lists of ints or None; a provider is a finite list of values (the k-th call returns a fresh copy of entry
-min(k, last)): `[[]]` is the handler's `lambda: deque()`, `[None]` the class default `lambda: None`.
+min(k, last), the entry 'raise' makes that call raise): `[[]]` is the handler's `lambda: deque()`, `[None]` the class
+default `lambda: None`.
 """
 import copy
 import queue
@@ -36,6 +37,8 @@ class _Provider:
     def __call__(self):
         v = self.values[min(self.calls, len(self.values) - 1)]
         self.calls += 1
+        if v == 'raise':
+            raise RuntimeError('provider failed')
         return copy.deepcopy(v)
 
 
@@ -141,10 +144,15 @@ def reference(case):
     calls = [0] * len(case['providers'])
     out = []
 
+    class Failed(Exception):
+        pass
+
     def provide(inst):
         vals = case['providers'][inst]
         v = copy.deepcopy(vals[min(calls[inst], len(vals) - 1)])
         calls[inst] += 1
+        if v == 'raise':
+            raise Failed()         # the provider's exception leaves get(): nothing is stored
         return v
 
     def get(key, inst):
@@ -155,8 +163,19 @@ def reference(case):
 
     for t, inst, op, arg in case['sched']:
         key = (inst, t)
-        if op in ('get', 'value'):
-            out.append(['val', copy.deepcopy(get(key, inst))])
+        if op in ('get', 'value', 'push'):
+            try:
+                v = get(key, inst)
+            except Failed:
+                out.append(['raised', 'RuntimeError'])
+                continue
+            if op != 'push':
+                out.append(['val', copy.deepcopy(v)])
+            elif v is None:
+                out.append(['raised', 'AttributeError'])
+            else:
+                v.append(arg)
+                out.append(['unit'])
         elif op == 'is_set':
             out.append(['flag', key in cells])
         elif op == 'clear':
@@ -165,13 +184,6 @@ def reference(case):
         elif op in ('set', 'set_value'):
             cells[key] = copy.deepcopy(arg)
             out.append(['unit'])
-        elif op == 'push':
-            v = get(key, inst)
-            if v is None:
-                out.append(['raised', 'AttributeError'])
-            else:
-                v.append(arg)
-                out.append(['unit'])
     return out, calls
 
 
@@ -218,7 +230,7 @@ def compare(case, obs, resp):
         rs = resp['insts'][inst]['results']
         m = rs[pos[inst]] if pos[inst] < len(rs) else None
         pos[inst] += 1
-        if m is None or m[0] != t or m[1] != g:
+        if m is None or m[0] != t or (m[1] != g and not (m[1][0] == 'raised' and g[0] == 'raised')):
             d.append('operation %d (T%d %s on instance %d): implementation %s, model %s' % (i, t, op, inst, g, m))
     mc = [None if g is None else x['calls'] for x, g in zip(resp['insts'], obs.get('provider_calls') or [])]
     if mc != obs.get('provider_calls'):
@@ -265,8 +277,11 @@ def gen_case(rng, tier):
                 default_ctor[str(i)] = True
         elif r < 0.85:
             providers.append([[100 + k] for k in range(rng.randint(2, 5))])   # stateful: every call differs
-        else:
+        elif r < 0.93:
             providers.append([rng.choice([None, [7]]) for _ in range(rng.randint(2, 4))])   # sometimes None
+        else:
+            # sometimes RAISES (the exception leaves get(), nothing is stored), never at the last (repeated) entry
+            providers.append([rng.choice(['raise', [8], [9]]) for _ in range(rng.randint(2, 4))] + [[5]])
     nthreads = rng.randint(2, 6 if tier == 'quick' else 9)
     style = rng.choice(['sequential', 'sequential', 'interleaved', 'mixed'])
     per = {t: rng.randint(1, 7) for t in range(nthreads)}
@@ -323,12 +338,19 @@ def corpus():
                    [0, 0, 'get', None], [1, 0, 'clear', None], [1, 0, 'clear', None], [1, 0, 'is_set', None],
                    [1, 0, 'value', None], [0, 1, 'push', 5], [0, 1, 'is_set', None], [1, 1, 'get', None],
                    [1, 1, 'set_value', [4]], [1, 1, 'push', 6], [1, 1, 'value', None], [0, 1, 'get', None]]},
+        # a provider that raises at its first and third call (audit probe P4): get lets the exception out, the slot stays
+        # unset, the next get calls the provider again
+        {'kind': 'tl', 'stream': 'tl', 'style': 'interleaved', 'providers': [['raise', [2], 'raise', [4]]],
+         'sched': [[0, 0, 'get', None], [0, 0, 'is_set', None], [1, 0, 'is_set', None], [0, 0, 'get', None],
+                   [1, 0, 'push', 3], [1, 0, 'is_set', None], [1, 0, 'value', None], [0, 0, 'get', None]]},
     ]
 
 
 def label(case, obs):
     if 'raised' in obs:
         return 'tl/raised'
+    if any('raise' in p for p in case['providers']):
+        return 'tl/raising-provider/%s' % ('ident-reused' if obs.get('ident_reused') else 'idents-distinct')
     n = obs.get('nthreads', 0)
     return 'tl/%s/%dinst/%s/%s' % (case.get('style', '?'), len(case['providers']),
                                    '2-3thr' if n <= 3 else '4+thr',
